@@ -36,6 +36,7 @@ class QuantMixin:
         self.q_facts: Dict[int, List[QFact]] = {}     # seq term id -> facts
         self.q_alias: Dict[int, List[Any]] = {}       # seq term id -> related sequences sharing the index domain
         self.q_seqs: Dict[int, Any] = {}
+        self.seq_elem_type: Dict[int, str] = {}
 
     def _seq_key(self, s) -> int:
         s = smt.simp(s)
@@ -96,6 +97,9 @@ class QuantMixin:
         v = smt.simp(s[t])
         self.note_index(s, t)
         self.bound_ref(v)
+        et = self.seq_elem_type.get(smt.simp(s).get_id())
+        if et is not None:
+            self._add_axiom(z3.Implies(z3.And(t >= 0, t < z3.Length(s)), self.type_formula(v, et)))
         return v
 
     # ------------------------------------------------------------------ all / any over generator expressions
@@ -146,6 +150,7 @@ class QuantMixin:
             self.st.restore(snap)
             try:
                 def thunk():
+                    pass
                     sub = Frame(fr.func, fr.module, parent=fr, cls=fr.cls)
                     sub.is_spec = fr.is_spec
                     self.assign(gen.target, smt.simp(Val.int(i)) if rng is not None else self.elem(S, i), sub)
@@ -153,7 +158,7 @@ class QuantMixin:
                         if not self.branch(self.truthy(self.ev(c, sub))):
                             return z3.BoolVal(is_all)
                     return self.truthy(self.ev(arg.elt, sub))
-                return self.merged_truth(thunk, 'quantified element predicate')
+                return self.merged_truth(thunk, 'quantified element predicate', assuming=z3.And(i >= 0, i < n))
             finally:
                 self.st.restore(cur)
 
